@@ -579,6 +579,9 @@ func label(c Case, o *vf.Obs, res *Result) {
 	for _, s := range c.sharedObjects() {
 		o.Class("obj_" + s)
 	}
+	for _, s := range c.scheduleClasses() {
+		o.Class("sched_" + s)
+	}
 	switch {
 	case c.Instances <= 4:
 		o.Class("instances_2_4")
